@@ -229,9 +229,11 @@ func (e *Exec) intrinsic(fn *ssa.Function, args []Value) (ret Value, ok bool) {
 	// ---- strings / bytes ------------------------------------------------------------
 	case "strings.ToLower":
 		s := args[0].(*Str)
+		e.asciiOnly(s)
 		return &Str{B: mapBytes(s.B, lowerByte)}, true
 	case "strings.ToUpper":
 		s := args[0].(*Str)
+		e.asciiOnly(s)
 		return &Str{B: mapBytes(s.B, upperByte)}, true
 	case "strings.EqualFold":
 		a, b := args[0].(*Str), args[1].(*Str)
@@ -313,7 +315,7 @@ func (e *Exec) intrinsic(fn *ssa.Function, args []Value) (ret Value, ok bool) {
 func (e *Exec) asciiOnly(s *Str) {
 	for _, b := range s.B {
 		if smt.UMax(b) >= 0x80 {
-			if e.feasible(smt.BvCmp(smt.OBvUle, smt.BVC(8, 0x80), b)) {
+			if e.feasibleStrict(smt.BvCmp(smt.OBvUle, smt.BVC(8, 0x80), b)) {
 				e.unsupported("non-ASCII byte in case-folding intrinsic")
 			}
 		}
